@@ -1,6 +1,7 @@
 package main
 
 import (
+	"fmt"
 	"go/types"
 
 	"golang.org/x/tools/go/ssa"
@@ -110,11 +111,39 @@ func (x *Exec) lookup(st *State, fr *Frame, v *ssa.Lookup) Val {
 	return val
 }
 
-// Range over a map or string: iteration order and count are nondeterministic.
+// Range over a map: the iterator carries a ghost visited set
+//
+//	IT!visited : iterator -> (Array K Bool)
+//
+// Next either yields a key that is present and not yet visited (and marks it
+// visited) or ends, in which case every present key has been visited: each key
+// exactly once, in an arbitrary order. (Entries inserted or deleted during the
+// iteration are not modelled: recorded as an assumption.) Range over a string
+// stays an over-approximation.
+const itVisited = "IT!visited"
+
+func (x *Exec) itSort(ks string) string { return arrSort(SInt, arrSort(ks, SBool)) }
+
+func (x *Exec) itRegister(ks string) {
+	if _, ok := prefixRegistry["IT"]; !ok {
+		prefixRegistry["IT"] = [][2]string{{itVisited + "!" + ks, x.itSort(ks)}}
+	}
+}
+
 func (x *Exec) rangeInit(st *State, fr *Frame, v *ssa.Range) Val {
 	xv := x.val(fr, v.X)
 	r := xv
 	r.GoT = v.X.Type()
+	if _, isMap := v.X.Type().Underlying().(*types.Map); isMap {
+		_, _, ks := x.mapArrays(v.X.Type())
+		x.itRegister(ks)
+		it := x.alloc(st)
+		inner := arrSort(ks, SBool)
+		name := itVisited + "!" + ks
+		a := x.heapCur(st, name, x.itSort(ks))
+		x.heapSet(st, name, StoreT(a, it, Term{"((as const " + inner + ") false)", inner}))
+		return Val{K: VTuple, Parts: []Val{r, scalar(it, types.Typ[types.Int])}, GoT: v.Type()}
+	}
 	return Val{K: VTuple, Parts: []Val{r}, GoT: v.Type()}
 }
 
@@ -131,8 +160,22 @@ func (x *Exec) rangeNext(st *State, fr *Frame, v *ssa.Next) Val {
 	key := x.symValue(st, "rngk", m.Key(), false)
 	kt := flatten(key)[0]
 	inner := arrSort(ks, SBool)
-	has := Select(Select(x.heapCur(st, p+"!has", arrSort(SInt, inner)), src.T, inner), kt, SBool)
-	st.assume(Implies(ok, And(Neq(src.T, IntT(0)), has)))
+	hasArr := Select(x.heapCur(st, p+"!has", arrSort(SInt, inner)), src.T, inner)
+	has := Select(hasArr, kt, SBool)
+	if len(it.Parts) > 1 {
+		name := itVisited + "!" + ks
+		itr := it.Parts[1].T
+		vis := Select(x.heapCur(st, name, x.itSort(ks)), itr, inner)
+		st.assume(Implies(ok, And(Neq(src.T, IntT(0)), has, Not(Select(vis, kt, SBool)))))
+		done := fmt.Sprintf("(forall ((k!it %s)) (! (=> (select %s k!it) (select %s k!it)) :pattern ((select %s k!it)) :pattern ((select %s k!it))))", ks, hasArr.S, vis.S, hasArr.S, vis.S)
+		st.assume(Implies(Not(ok), Or(Eq(src.T, IntT(0)), Term{done, SBool})))
+		a := x.heapCur(st, name, x.itSort(ks))
+		x.heapSet(st, name, StoreT(a, itr, Ite(ok, StoreT(vis, kt, BoolT(true)), vis)))
+		x.note(x.Assumed, "map iteration in "+funcKey(fr.Fn)+": every key present at the start is visited exactly once, in arbitrary order; the map is not modified during the iteration")
+	} else {
+		st.assume(Implies(ok, And(Neq(src.T, IntT(0)), has)))
+		x.note(x.Assumed, "map iteration in "+funcKey(fr.Fn)+": order and number of iterations nondeterministic (over-approximation)")
+	}
 	cs := comps(m.Elem())
 	ts := make([]Term, len(cs))
 	for i, c := range cs {
@@ -140,7 +183,6 @@ func (x *Exec) rangeNext(st *State, fr *Frame, v *ssa.Next) Val {
 		ts[i] = Select(Select(x.heapCur(st, p+"!val"+c.Suffix, arrSort(SInt, in2)), src.T, in2), kt, c.Sort)
 	}
 	val, _ := unflatten(m.Elem(), ts)
-	x.note(x.Assumed, "map iteration in "+funcKey(fr.Fn)+": order and number of iterations nondeterministic (over-approximation)")
 	return Val{K: VTuple, Parts: []Val{scalar(ok, tt.At(0).Type()), key, val}, GoT: tt}
 }
 
@@ -153,6 +195,18 @@ func (x *Exec) selectOp(st *State, fr *Frame, v *ssa.Select) Val {
 		lo = -1
 	}
 	st.assume(And(Ge(idx, IntT(lo)), Lt(idx, IntT(int64(len(v.States))))))
+	// a context that is never cancelled never has a ready done channel
+	for i, sc := range v.States {
+		if sc.Dir != types.RecvOnly {
+			continue
+		}
+		if cv := x.val(fr, sc.Chan); cv.K == VScalar {
+			if c, ok := doneChans[cv.T.S]; ok {
+				x.ufun("neverCancelled", []string{SInt}, SBool)
+				st.assume(Implies(app("neverCancelled", SBool, c), Neq(idx, IntT(int64(i)))))
+			}
+		}
+	}
 	parts := []Val{scalar(idx, tt.At(0).Type()), scalar(x.fresh(st, "selok", SBool), tt.At(1).Type())}
 	for i := 2; i < tt.Len(); i++ {
 		parts = append(parts, x.symValue(st, "selrecv", tt.At(i).Type(), false))
